@@ -1,8 +1,13 @@
-/- Driver for C10 (stub). -/
-import ControlModel.Basic
+/- Driver for C10 (monitor + Spec.C10 on the observed trace). -/
+import Driver.EnvCommon
+import ControlModel.Spec.C10
 
 namespace Driver.C10
+open EnvM Driver.EnvCommon
 
-def processLine (_line : String) : String := "UNIMPLEMENTED\t0\t-"
+def processLine (line : String) : String :=
+  processWith (fun i tr =>
+    let ok := specC10 i.hooks i.reqs tr
+    (ok, if !ok && !noFailedTeardown i.reqs then "end_stamp_rewritten_after_failed_teardown" else "-")) line
 
 end Driver.C10
